@@ -12,6 +12,7 @@ Record case := Case {
   k_keep : bool;
   k_ids : option (list rid);
   k_cats : option (list cat);
+  k_close : list (cat * nat);            (* the consumer closed this category's generator after n comparisons *)
   k_impl : res (list (cat * cat_result)) (* implementation observable *)
 }.
 
@@ -37,8 +38,19 @@ Definition lookup_of (c : case) (x : cat) : res (list rid) :=
 Definition beh_of (c : case) (id : rid) : behaviour :=
   match assoc id (k_beh c) with Some b => b | None => BMissing end.
 
+(** a generator closed by its consumer after n comparisons has produced the first n elements of the
+    model's list (each element is computed on demand); other categories are untouched *)
+Definition cut_entry (cl : list (cat * nat)) (p : cat * cat_result) : cat * cat_result :=
+  match assoc (fst p) cl, snd p with
+  | Some n, CatRun l => (fst p, CatRun (firstn n l))
+  | _, _ => p
+  end.
+
 Definition model_obs (c : case) : res (list (cat * cat_result)) :=
-  play (extract_of c) (tuner_of c) (lookup_of c) (beh_of c) (k_keep c) (k_ids c) (k_cats c).
+  match play (extract_of c) (tuner_of c) (lookup_of c) (beh_of c) (k_keep c) (k_ids c) (k_cats c) with
+  | Ans r => Ans (map (cut_entry (k_close c)) r)
+  | Raises e => Raises e
+  end.
 
 (** decidable equality on observables *)
 Definition status_eqb (a b : status) : bool :=
